@@ -373,6 +373,7 @@ def r5_r6(tree, prog, rep):
             and not any(isinstance(n, ast.Try) for n in ast.walk(dd))
     rep.check("C01.R6", "decrypt_data returns SecretBox(key).decrypt(encrypted) and lets CryptoError escape", ok, site(dd, KEY),
               key="C01.R6:decrypt_data")
+    decrypt_raises_only_cryptoerror(tree, rep, "C01.R6")
     B = prog.machine("Boss")
     hrows = [r for r in B.rows_on("happy") if r.src != r.enter]
     hs = {r.enter for r in hrows}
@@ -397,6 +398,23 @@ def r5_r6(tree, prog, rep):
                 vals += assigns_in_output(B, o, "_result")
             ok = len(vals) == 1 and isinstance(vals[0], ast.Call) and (dotted(vals[0].func) or "").split(".")[-1] == "WrongPasswordError"
             rep.check("C01.R6", "Boss %s.scared closes with WrongPasswordError" % r.src, ok, r.site, key="C01.R6:Boss[%s].scared" % r.src)
+
+
+def decrypt_raises_only_cryptoerror(tree, rep, rule):
+    """whatever the peer put into the ciphertext (also a too-short one), the only exception leaving decrypt_data is CryptoError:
+    Receive.got_message turns exactly that into `scared` (WrongPasswordError, mood scary)"""
+    dd = tree.func(KEY, None, "decrypt_data")
+    bad = []
+    for r in ast.walk(dd):
+        if isinstance(r, ast.Raise) and r.exc is not None:
+            f = r.exc.func if isinstance(r.exc, ast.Call) else r.exc
+            if (dotted(f) or "").split(".")[-1] != "CryptoError":
+                bad.append(r)
+    rep.check(rule, "decrypt_data raises nothing but CryptoError for a bad ciphertext (asserts concern the caller's own arguments)", not bad,
+              site(bad[0], KEY) if bad else site(dd, KEY), key="%s:decrypt_data:only-CryptoError" % rule,
+              what="decrypt_data raises %s for some ciphertexts: Receive.got_message does not treat that as a wrong password, the error "
+                   "escapes to Boss.error and the mailbox is left open without a mood" % (
+                       ast.unparse(bad[0].exc)[:60] if bad else "?"))
 
 
 def r7(tree, rep, tier):
